@@ -1864,7 +1864,9 @@ struct Value {
                 const Value *end = array_.End();
 
                 while (item_ != end) {
-                    if ((item_ != nullptr) && item_->isObject()) {
+                    if ((item_ != nullptr) && item_->isObject() &&
+                        item_->object_.GetKeyIndex(grouped_key_index, key, length)) {
+                        // The position of the grouping key is looked up in every object: member order is not fixed.
                         SizeT count = 0;
 
                         const VItem *obj_item = item_->object_.First();
